@@ -325,8 +325,13 @@ fn execute(plan: &VecPlan, mode: Mode) -> RunOut {
                     cur_op.remove(t);
                 }
             }
+            // an update of weight 2^bit is recognised by its effect on the cell, however it is
+            // implemented: fetch_add(2^bit) or a successful CAS whose new value is old + 2^bit
             Ev::Op { kind: OpKind::FetchAdd, loc, a, .. } if a.count_ones() == 1 && *a >= 256 => {
                 cell_of_bit.insert(a.trailing_zeros() as u8, *loc);
+            }
+            Ev::Op { kind: OpKind::Cas | OpKind::CasWeak, loc, a, b, ok: true, .. } if b.wrapping_sub(*a).count_ones() == 1 && b.wrapping_sub(*a) >= 256 => {
+                cell_of_bit.insert(b.wrapping_sub(*a).trailing_zeros() as u8, *loc);
             }
             Ev::Op { t, kind: OpKind::Load, loc, .. } => {
                 if let Some(op) = cur_op.get(t) {
@@ -345,6 +350,7 @@ fn execute(plan: &VecPlan, mode: Mode) -> RunOut {
     };
     let mut collects: Vec<(u32, usize, usize, Vec<(u32, f64)>)> = vec![];
     let mut ident_unavailable = 0u64;
+    let mut identity_lost = false;
     for (id, r) in results.iter() {
         let t = op_thread(*id);
         let i = *id as usize % 1000;
@@ -363,7 +369,7 @@ fn execute(plan: &VecPlan, mode: Mode) -> RunOut {
                     incs.push((*bit, inv, ret, *c));
                     h.push(HOp { inv, ret, op: MOp::Get(*tuple, *c) });
                 }
-                None => out.violations.push(Violation::new("C10/update", "C10/update", format!("update of op {} left no trace in the event log", id))),
+                None => identity_lost = true, // the update is implemented in a way the log cannot attribute
             },
             (VOp::GetInc { .. }, _) => out.violations.push(Violation::new("C10/map", "C10/get-error", format!("get-or-create op {} with correct labels returned an error", id))),
             (VOp::IncAgain { bit, .. }, _) => {
@@ -410,7 +416,10 @@ fn execute(plan: &VecPlan, mode: Mode) -> RunOut {
         }
     }
     // ---- (1) map-level linearizability
-    if linearize(&VecSpec, MState { attached: BTreeMap::new(), seen: BTreeSet::new() }, &h).is_none() {
+    if identity_lost {
+        // without observable child identity only the value-level clauses below can be checked
+        out.probes.push(("runs_without_observable_identity", 1));
+    } else if linearize(&VecSpec, MState { attached: BTreeMap::new(), seen: BTreeSet::new() }, &h).is_none() {
         let desc: Vec<String> = h.iter().map(|o| format!("[{}..{}] {:?}", o.inv, o.ret, o.op)).collect();
         // specific shape for the known-findings matcher: two different tuples bound to one child
         let mut alias = None;
